@@ -80,7 +80,9 @@ def run_op(p, e, op, stash=None, meta=True, shared=None):
             # the same instance fed another input type than usual (str / TextSlice over a padded buffer)
             if op[3] == 'slice':
                 from lark.utils import TextSlice
-                inp = TextSlice('##' + op[1] + '##', 2, 2 + len(op[1]))
+                pad = op[4] if len(op) > 4 else '##'
+                from sim import seams
+                inp = TextSlice(seams.mkbuf(pad + op[1] + '##'), len(pad), len(pad) + len(op[1]))
             else:
                 inp = op[1]
             return {'ok': canon(p.parse(inp, start=op[2]), meta)}
